@@ -500,7 +500,7 @@ class World:
             self.transparent_used.add(qn)
             yield from ex.call_function_source(st, fn, args, kw, line, defclass=owner)
             return
-        if entry is not None and not (ex.inline_self and qn == ex.owner_qualname):
+        if entry is not None:  # (a recursive call is served by the function's own contract: partial correctness)
             yield from self.call_contract(ex, st, entry, fn, args, kw, line)
             return
         if qn in TRANSPARENT:
@@ -680,6 +680,8 @@ class World:
         for name in sorted(self._assigned(s.body)):
             if name in h.env:
                 h.env[name] = self._havoc(ex, name, h.env[name], k)
+        for c in getattr(ex.fresh, "side", []):
+            h.assume(c)
         for label, f in spec_.inv(Env(h.env), Env(entry), ex.args0):
             h.assume(f)
         v0 = spec_.variant(Env(h.env), Env(entry), ex.args0) if spec_.variant else None
@@ -760,6 +762,8 @@ class World:
         i = ex.fresh.int(f"i_F{k}")
         h.env["__i__"] = i
         h.assume(i >= 0)
+        for c in getattr(ex.fresh, "side", []):
+            h.assume(c)
         for label, f in spec_.inv(Env(h.env), Env(entry), ex.args0):
             h.assume(f)
         s_body = h.fork(sym.lt(i, n), f"F{k}body")
@@ -897,6 +901,18 @@ class World:
         return SymStr(out)
 
     def symstr_compare(self, op, a, b, line):
+        from .stdlib import YearMonthStr
+
+        if isinstance(a, YearMonthStr) and isinstance(b, YearMonthStr):
+            r = sym.And(sym.eq(a.year, b.year), sym.eq(a.month, b.month))
+            if isinstance(op, ast.Eq):
+                return r
+            if isinstance(op, ast.NotEq):
+                return sym.Not(r)
+            raise Unsupported(f"ordering of formatted strings at line {line}")
+        return self._symname_compare(op, a, b, line)
+
+    def _symname_compare(self, op, a, b, line):
         if isinstance(a, SymName) and isinstance(b, SymName):
             r = True if a.tok is b.tok else sym.eq(a.tok, b.tok)
         elif isinstance(a, SymName) or isinstance(b, SymName):
